@@ -320,6 +320,8 @@ class ContractMixin:
             # a field (keyword argument) of the exception object that is leaving the function (only inside an "onraise:" clause)
             exc = getattr(self, "cur_exc", None)
             f = z3.simplify(args[0].t).as_string()
+            if exc is not None and f not in exc.fields and self.unknown_exc_field(exc, f) is not None:
+                return exc.fields[f]
             if exc is None or f not in (exc.fields or {}):
                 raise Unsupported("raised(%r): the exception carries no such field here (%s with fields %s)" % (
                     f, getattr(exc, "cls", None), sorted((getattr(exc, "fields", None) or {}).keys())), node)
